@@ -365,7 +365,9 @@ example : sget ((mixedInit.run mixedRun).storeOf 0) (embK 1) = some (.vec 7) ∧
     sget ((mixedInit.run mixedRun).storeOf 1) (nodeK 2) = some (.node 4) ∧
     sget ((mixedInit.run mixedRun).storeOf 1) (edgeK 2 3 1) = some .edge ∧
     sget ((mixedInit.run mixedRun).storeOf 1) 2 = some 6 := by decide
-example : lock_discipline_of_plain_ops [.put 1 2, .cas 1 none 3, .del 1] (by decide) = rfl := rfl
+-- the hypothesis of `lock_discipline_of_plain_ops` holds of a real workload, and the mixed-kind workload above keeps the discipline too
+example : ∀ op ∈ [Op.put 1 2, .cas 1 none 3, .del 1], op.isPlain = true := by decide
+example : lockDiscipline (allOps (mixedInit.run mixedRun).specs) = true := by decide
 -- `prepared_tx_holds_its_locks` / `prepare_never_moves_foreign_lock` are not vacuous: after 15 events tx 1 is prepared on shard 0
 example : ((mixedInit.run (mixedRun.take 15)).parts[0]?.map (fun p => p.prepared.map (·.tx))) = some [1] := by decide
 
